@@ -424,7 +424,7 @@ def _exec_chunk(task):
             # substitute-and-back chain (C08) on every fourth crystal
             rq = make_request(crystal, 1, rnd)
             rq.update(rp="subst", fn=1, fd=1, replace_all=False, ignore=False, chain=True)
-            for rq_i, ev in run_chain(crystal, rq, replicate=([2, 1, 1] if ci % 8 == 0 else ([2, 2, 3] if ci % 16 == 4 else None))):
+            for rq_i, ev in run_chain(crystal, rq, replicate=([2, 1, 1] if ci % 8 == 0 else ([2, 2, 3] if ci % 64 == 4 else None))):
                 out.append((ci, rq_i, ev))
         if ci % 4 == 2 and all(len(a["el"]) == 1 for a in crystal["atoms"]):
             rq = make_request(crystal, 1, rnd)
